@@ -17,7 +17,8 @@ import sympy
 from vp import coqrun
 from vp import render_common as rc
 
-STATIC = ["lex_total", "parse_total", "parse_fuel_monotone", "parse_code_deterministic", "parse_show_toks"]
+STATIC = ["lex_total", "parse_total", "parse_fuel_monotone", "parse_code_deterministic", "parse_show_toks",
+    "parse_show_spelled"]
 
 PARSE_FN = "parse_code"
 
@@ -238,7 +239,7 @@ def validate(ctx, cases, skipped):
     lemmas = kept
     ctx.coverage["refuted_numerically_before_coq"] = n_pre
     ctx.log(f"{len(lemmas)} lemmas, {n_struct} structure-only, {n_pre} refuted numerically")
-    res = coqrun.prove_lemmas(ctx, "c17", rc.PREAMBLE, [c["lemma"] for c in lemmas], per_file=40, timeout=900)
+    res = rc.prove_all(ctx, "c17", rc.PREAMBLE, [c["lemma"] for c in lemmas], per_file=40, timeout=900)
     ok = 0
     rng = random.Random(ctx.seed + 1)
     for c in lemmas:
@@ -248,6 +249,9 @@ def validate(ctx, cases, skipped):
         else:
             rc.decide_failed(ctx, "C17", c, r, rng)
     ctx.obligations(len(lemmas), ok)
+    first_ok = next((c["lemma"] for c in lemmas if res.get(c["lemma"].name) == "ok"), None)
+    if first_ok is not None:
+        rc.measure_axioms(ctx, rc.PREAMBLE, first_ok)
     cat = [c for c in cases if c["origin"] == "catalogue"]
     smp = [c for c in cases if c["origin"] == "sample"]
     bracket = sum(1 for c in smp if "(" in c["s"])
